@@ -191,6 +191,9 @@ structure Field where
   ftype : FType
   pos : Nat
   titleLines : List Val
+  /-- the value path is an attribute name (a field made from a column description of a table built
+  without `fields`: `getattr(record, name)`), not a position -/
+  attr : Bool
   deriving DecidableEq, Repr
 
 /-- `ReprColumn` -/
@@ -300,7 +303,8 @@ def cellLen (ft : FType) (m : Option (List Char)) (v : Val) : Except Err Nat :=
 
 /-- `RecordField.fetch_value(record)` for a tuple record -/
 def fetch (f : Field) (r : Record) : Except Err Val :=
-  match r[f.pos]? with
+  if f.attr then .error .attributeError   -- records are tuples: they have no such attribute
+  else match r[f.pos]? with
   | some v => .ok v
   | Option.none => .error .indexError
 
@@ -557,7 +561,7 @@ def startIters (tables : List Tbl) (iters : List Nat) :
 
 /-- what can happen between the steps of interleaved printing: an iterator is advanced for the first
 time (`start i`), or the caller changes what a table shows — `table.fmt.set_limits((a, b))` on the
-live format object (widths and flag stay), `table.records.append(r)` on the caller-owned list -/
+live format object (widths stay, the skipped-lines flag is forgotten), `table.records.append(r)` on the caller-owned list -/
 inductive Ev where
   | start (i : Nat)
   | setLimits (ti : Nat) (a b : Option Int)
@@ -582,7 +586,9 @@ def runEvents (tables : List Tbl) (iters : List Nat) :
   | .setLimits ti a b :: rest, acc =>
     match tables[ti]? with
     | Option.none => .error .indexError
-    | some t => runEvents (tables.set ti { t with fmt := { t.fmt with limF := a, limL := b } }) iters rest acc
+    | some t =>
+      runEvents (tables.set ti { t with fmt := { t.fmt with limF := a, limL := b, anySkipped := Option.none } })
+        iters rest acc
   | .append ti r :: rest, acc =>
     match tables[ti]? with
     | Option.none => .error .indexError
